@@ -302,6 +302,10 @@ impl Shared {
                         if cb == Cb::Accept {
                             class = "valid-key:refused".to_string();
                             v.push(Viol::new(format!("C05:cannot-sign:{}", why_cannot(m, &info.params)), format!("a valid in-lifetime key was refused ({} counter {})", self.cfg.label(), info.counter)));
+                            let advanced = out.key_after.as_ref().map(|k| k != &used_key).unwrap_or(false);
+                            if !out.cb_args.is_empty() || advanced {
+                                v.push(Viol::new("C04:leaf-consumed-then-refused", format!("the successor key was handed over and accepted ({} callback invocations; in-memory key advanced: {}), yet the call returned an error instead of the signature ({} counter {})", out.cb_args.len(), advanced, self.cfg.label(), info.counter)));
+                            }
                         } else {
                             class = "valid-key:reject->err".to_string();
                             if out.cb_args.is_empty() {
@@ -331,6 +335,7 @@ impl Shared {
                                     if a != msucc {
                                         v.push(Viol::new("C04:callback-arg", format!("callback argument {} != successor {}", hexs(a), hexs(msucc))));
                                         v.push(Viol::new("C03:successor", format!("successor key {} is not counter+1 of {} (expected {})", hexs(a), hexs(&used_key), hexs(msucc))));
+                                        v.push(Viol::new(format!("C13:successor:{}", if last { "last-leaf" } else { "inner" }), format!("successor key {} handed to the callback is not {} (state {})", hexs(a), if last { "the wiped state" } else { "counter+1" }, hexs(&used_key))));
                                         if last {
                                             v.push(Viol::new("C05:wipe-image", format!("key handed over after the last leaf is {} instead of the wiped image", hexs(a))));
                                             if a.len() >= 16 && a[16..].iter().any(|b| *b != 0) {
@@ -345,6 +350,8 @@ impl Shared {
                                 if &after != msucc {
                                     v.push(Viol::new("C04:inmem-key-not-advanced", format!("in-memory signing key after try_sign is {} (expected {})", hexs(&after), hexs(msucc))));
                                     v.push(Viol::new("C03:successor", "in-memory key successor is not counter+1"));
+                                    v.push(Viol::new(format!("C13:successor:{}:SigningKey", if last { "last-leaf" } else { "inner" }), format!("the in-memory signing key after try_sign is {} instead of {} (state {})", hexs(&after), if last { "the wiped state" } else { "counter+1" }, hexs(&used_key))));
+                                    v.push(Viol::new("C09:entry-points-disagree:SigningKey-successor", "the in-memory signing key does not continue like the key the byte-level function hands to its callback"));
                                     if last {
                                         v.push(Viol::new("C05:wipe-image", "in-memory key after the last leaf is not the wiped image"));
                                         if after.len() >= 16 && after[16..].iter().any(|b| *b != 0) {
